@@ -3229,6 +3229,65 @@ class PyCdlib:
 
         return num_bytes_to_add
 
+    def _check_new_paths(self, iso_path, joliet_path, udf_path):
+        # type: (Optional[str], Optional[str], Optional[str]) -> None
+        """
+        An internal method to check, before anything is changed, that an entry
+        can be added under each of the given paths: the ISO has that
+        namespace, the parent exists and is a directory, and the name is not
+        taken yet.  An edit that names several namespaces is applied one
+        namespace after the other, so a path that is refused must be found
+        before the first namespace is touched.
+
+        Parameters:
+         iso_path - The ISO9660 absolute path of the new entry, if any.
+         joliet_path - The Joliet absolute path of the new entry, if any.
+         udf_path - The UDF absolute path of the new entry, if any.
+        Returns:
+         Nothing.
+        """
+        if iso_path:
+            iso_path_bytes = utils.normpath(iso_path)
+            (name, parent) = self._iso_name_and_parent_from_path(iso_path_bytes)
+            if not parent.is_dir():
+                raise pycdlibexception.PyCdlibInvalidInput('Trying to add a child to a record that is not a directory')
+            # An empty name is reported by the check of the name itself.
+            if name:
+                try:
+                    self._find_iso_record(iso_path_bytes)
+                except pycdlibexception.PyCdlibInvalidInput:
+                    pass
+                else:
+                    raise pycdlibexception.PyCdlibInvalidInput('Failed adding duplicate name to parent')
+
+        if joliet_path:
+            if self.joliet_vd is None:
+                raise pycdlibexception.PyCdlibInvalidInput('A Joliet path can only be specified for a Joliet ISO')
+            joliet_path_bytes = self._normalize_joliet_path(joliet_path)
+            (name_unused, parent) = self._joliet_name_and_parent_from_path(joliet_path_bytes)
+            if not parent.is_dir():
+                raise pycdlibexception.PyCdlibInvalidInput('Trying to add a child to a record that is not a directory')
+            try:
+                self._find_joliet_record(joliet_path_bytes)
+            except pycdlibexception.PyCdlibInvalidInput:
+                pass
+            else:
+                raise pycdlibexception.PyCdlibInvalidInput('Failed adding duplicate name to parent')
+
+        if udf_path:
+            if self.udf_root is None:
+                raise pycdlibexception.PyCdlibInvalidInput('Can only specify a UDF path for a UDF ISO')
+            udf_path_bytes = utils.normpath(udf_path)
+            (name_unused, udf_parent) = self._udf_name_and_parent_from_path(udf_path_bytes)
+            if udf_parent is None or not udf_parent.is_dir():
+                raise pycdlibexception.PyCdlibInvalidInput('Can only add a UDF File Identifier to a directory')
+            try:
+                self._find_udf_record(udf_path_bytes)
+            except pycdlibexception.PyCdlibInvalidInput:
+                pass
+            else:
+                raise pycdlibexception.PyCdlibInvalidInput('Failed adding duplicate name to parent')
+
     def _add_fp(self, fp, length, manage_fp, iso_path, rr_name,
                 joliet_path, udf_path, file_mode, eltorito_catalog):
         # type: (Optional[Union[BinaryIO, str]], int, bool, Optional[str], Optional[str], Optional[str], Optional[str], Optional[int], bool) -> int
@@ -3262,6 +3321,8 @@ class PyCdlib:
 
         if iso_path is None and joliet_path is None and udf_path is None:
             raise pycdlibexception.PyCdlibInvalidInput("At least one of 'iso_path', 'joliet_path', or 'udf_path' must be provided")
+
+        self._check_new_paths(iso_path, joliet_path, udf_path)
 
         fmode = 0
         if file_mode is not None:
@@ -4793,6 +4854,8 @@ class PyCdlib:
         # required for Rock Ridge and remove this assumption.
         if file_mode is None:
             file_mode = 0o040555
+
+        self._check_new_paths(iso_path, joliet_path, udf_path)
 
         num_bytes_to_add = 0
         if iso_path is not None:
